@@ -41,7 +41,7 @@ COMPONENTS = {
 WARMUP = 12
 QUICK = {'budget_s': 40}
 THOROUGH = {'budget_s': 480}
-EXPECTED_PROBES = ['serializer_raise', 'write_error', 'close_error', 'rename_error', 'crash_before_rename',
+EXPECTED_PROBES = ['fault_is_SerializerError', 'fault_is_SerializerInterrupt', 'serializer_raise', 'write_error', 'close_error', 'rename_error', 'crash_before_rename',
                    'crash_after_rename', 'crash_torn_write', 'success']
 
 PROF = gen.profile(max_nodes=5, max_depth=2, w_group=2, w_subtest=2, w_branch=0, w_ckpt_fail=0, w_ckpt_diag=0,
@@ -58,8 +58,20 @@ def setup():
   _m.update(callbacks=callbacks, json_factory=json_factory, atomic_write=atomic_write)
 
 
-class _SerializerFault(Exception):
+class _SerializerError(Exception):
   pass
+
+
+class _SerializerInterrupt(BaseException):
+  """Not an Exception subclass: stands for KeyboardInterrupt / SystemExit / a thread kill
+  arriving while the record is being serialized or written."""
+
+
+_FAULT = [_SerializerError]
+
+
+def _SerializerFault(msg):   # pylint: disable=invalid-name
+  return _FAULT[0](msg)
 
 
 def _install(fs):
@@ -173,6 +185,8 @@ def run_one(tape):
   if obs.sink and obs.failed is None:
     rec = obs.sink[0][1]
     bufsize = tape.pick([16, 64, 1024, 8192], 'bufsize')
+    _FAULT[0] = tape.pick([_SerializerError, _SerializerInterrupt], 'fault_class')
+    probes['fault_is_' + _FAULT[0].__name__.lstrip('_')] = 1
     for (sname, runner, expected, fname, nchunks) in _sinks(rec, tape):
       for prev in (None, b'PREVIOUS COMPLETE RECORD\n'):
         # dry run: number the FS operations, check the success case
